@@ -4,6 +4,7 @@ import (
 	"fmt"
 	"math/big"
 	"math/rand/v2"
+	"strings"
 
 	"github.com/NethermindEth/juno/core/crypto"
 	"github.com/NethermindEth/juno/core/felt"
@@ -20,6 +21,10 @@ type rangeClaim struct {
 	Vals     []*felt.Felt
 	P        nproof
 	NilProof bool
+	// the boundaries the honest prover was asked for (GetRangeProof(PL, PR)): the native
+	// proof set - the prover's own node objects, cached hashes included - is re-derived
+	// from them for every verification (the verifier modifies the nodes it is given)
+	PL, PR *big.Int
 }
 
 func (rc rangeClaim) clone() rangeClaim {
@@ -135,6 +140,7 @@ func honestRanges(rng *rand.Rand, c trieCase, im *impl, quick bool) ([]rangeClai
 			return fmt.Errorf("GetRangeProof(%s,%s): %w", first.Text(16), last.Text(16), err)
 		}
 		rc.P = p
+		rc.PL, rc.PR = first, last
 		out = append(out, rc)
 		return nil
 	}
@@ -179,10 +185,15 @@ func honestRanges(rng *rand.Rand, c trieCase, im *impl, quick bool) ([]rangeClai
 		}
 	}
 	// first key absent: strictly between K[i-1] and K[i] (or below K[0])
-	for tries := 0; tries < 4; tries++ {
+	absentKinds := map[int]bool{}
+	for tries := 0; tries < 8 && len(absentKinds) < 3; tries++ {
 		i := rng.IntN(n)
 		var first *big.Int
-		switch rng.IntN(3) {
+		kind := rng.IntN(3)
+		if absentKinds[kind] {
+			continue
+		}
+		switch kind {
 		case 0:
 			first = new(big.Int).Sub(K[i].K, big.NewInt(1))
 		case 1:
@@ -206,7 +217,7 @@ func honestRanges(rng *rand.Rand, c trieCase, im *impl, quick bool) ([]rangeClai
 		if err := mk("first-absent", first, i, j); err != nil {
 			return nil, err
 		}
-		break
+		absentKinds[kind] = true
 	}
 	// nothing at or after first
 	if K[n-1].K.Cmp(max) < 0 {
@@ -327,6 +338,26 @@ func rangeTampers(rng *rand.Rand, c trieCase, rc rangeClaim, h crypto.HashFn) []
 		t.Keys = append(t.Keys[:i+1:i+1], t.Keys[i:]...)
 		t.Vals = append(t.Vals[:i+1:i+1], t.Vals[i:]...)
 		out = append(out, rangeTamper{Op: "element-repeated@" + pos(i), C: t})
+	}
+	// a run of neighbouring elements dropped (a whole subtree withheld): at the front, at the end, inside
+	if n >= 3 {
+		for _, where := range []string{"first", "last", "middle"} {
+			m := 2 + rng.IntN(min(3, n-2))
+			a := 0
+			switch where {
+			case "last":
+				a = n - m
+			case "middle":
+				if n-m-1 < 1 {
+					continue
+				}
+				a = 1 + rng.IntN(n-m-1)
+			}
+			t := rc.clone()
+			t.Keys = append(t.Keys[:a:a], t.Keys[a+m:]...)
+			t.Vals = append(t.Vals[:a:a], t.Vals[a+m:]...)
+			out = append(out, rangeTamper{Op: fmt.Sprintf("element-run-dropped@%s", where), C: t, Dropped: rc.Keys[a]})
+		}
 	}
 	// element added: an absent key with some value, before / between / after
 	for tries := 0; tries < 6; tries++ {
@@ -694,11 +725,60 @@ func checkRanges(rp *reporter, idx int, c trieCase, im *impl, rng *rand.Rand) {
 			r.Sample(map[string]any{"kind": "range", "case": idx, "impl": im.name, "leaves": len(c.Items), "honest_claim": rc.String(),
 				"hasMore": more, "proof_nodes": len(rc.P), "tampered_claims_derived": len(tampers)})
 		}
+		// the same honest claim against the prover's own node objects (cached hashes and all)
+		if im.rverifNative != nil && !rc.NilProof {
+			var nm bool
+			var ne error
+			if !rp.guard(idx, im.name+":VerifyRangeProof:honest:native-proof-set:"+cond(im.name, c, rc), func() any { return mk("", rc, false, nil) }, func() {
+				nm, ne = im.rverifNative(&im.root, lib.FeltOfBig(rc.First), feltsOf(rc.Keys), rc.Vals, lib.FeltOfBig(rc.PL), lib.FeltOfBig(rc.PR))
+			}) {
+				r.Eval(1)
+				r.Count("range.native_set.honest_claims", 1)
+				if ne != nil {
+					report(fmt.Sprintf("%s:range-honest-rejected:native-proof-set:%s:%s", im.name, rc.Shape, cond(im.name, c, rc)), "", rc, nm, ne, true, wantMore, "", func() string {
+						return fmt.Sprintf("%s VerifyRangeProof rejects the honest range '%s' (%s) when given the prover's own proof set: %v", im.name, rc.Shape, rc.String(), ne)
+					})
+				} else if nm != wantMore {
+					report(fmt.Sprintf("%s:range-true-claim-wrong-hasMore:native-proof-set:got-%v:%s", im.name, nm, cond(im.name, c, rc)), "", rc, nm, ne, true, wantMore, "", func() string {
+						return fmt.Sprintf("%s VerifyRangeProof returns hasMore=%v for the honest range '%s' (%s) with the prover's own proof set", im.name, nm, rc.Shape, rc.String())
+					})
+				}
+			}
+		}
 		for _, t := range tampers {
 			tTrue, tMore := rangeTruth(c.Items, t.C)
 			var more bool
 			var e error
 			fam := opFamily(t.Op)
+			// claims whose proof part is untouched are also offered together with the prover's own
+			// node objects: a responder in the same process (or a cache of decoded nodes that keeps
+			// their hashes) hands exactly those to the verifier
+			if im.rverifNative != nil && !t.C.NilProof && !strings.HasPrefix(t.Op, "proof-") {
+				var nm bool
+				var ne error
+				if !rp.guard(idx, im.name+":VerifyRangeProof:tampered:native-proof-set:"+cond(im.name, c, t.C), func() any { return mk(t.Op, t.C, false, nil) }, func() {
+					nm, ne = im.rverifNative(&im.root, lib.FeltOfBig(t.C.First), feltsOf(t.C.Keys), t.C.Vals, lib.FeltOfBig(rc.PL), lib.FeltOfBig(rc.PR))
+				}) {
+					r.Eval(1)
+					r.Count("range.native_set.tampers_applied", 1)
+					switch {
+					case ne != nil:
+						r.Count("range.native_set.tampers_rejected", 1)
+					case tTrue && nm == tMore:
+						r.Count("range.native_set.tampers_accepted_but_truthful", 1)
+					case tTrue:
+						report(fmt.Sprintf("%s:range-true-claim-wrong-hasMore:native-proof-set:got-%v:%s", im.name, nm, cond(im.name, c, t.C)), t.Op, t.C, nm, ne, true, tMore, "", func() string {
+							return fmt.Sprintf("%s VerifyRangeProof (prover's own proof set) accepts the (still true) claim %s [%s] with hasMore=%v; leaves to the right exist: %v", im.name, t.C.String(), t.Op, nm, tMore)
+						})
+					default:
+						disc := discrepancy(c.Items, t.C)
+						report(fmt.Sprintf("%s:range-accepted-lie:native-proof-set:%s:%s", im.name, disc, cond(im.name, c, t.C)), t.Op, t.C, nm, ne, false, tMore, disc, func() string {
+							return fmt.Sprintf("%s VerifyRangeProof accepts a false range claim when given the prover's own proof set (%s; produced by %s on the honest range '%s'): %s",
+								im.name, disc, t.Op, rc.Shape, t.C.String())
+						})
+					}
+				}
+			}
 			if rp.guard(idx, im.name+":VerifyRangeProof:tampered:"+cond(im.name, c, t.C), func() any { return mk(t.Op, t.C, false, nil) }, func() { more, e = call(t.C) }) {
 				continue
 			}
